@@ -250,3 +250,22 @@ def const_value(op):
     if op[0] == "k" and "v" in op[1]:
         return int(op[1]["v"])
     return None
+
+
+def fdom(cx, body, A, B, what, key=None):
+    """like dom(), but infeasible paths that contradict an enum-variant fact are pruned"""
+    from ..core import feasible_reach
+    Ab = set(body.blocks_of(A))
+    allok = True
+    for b in B:
+        r = feasible_reach(body, [0], avoid=Ab)
+        ok = (b.bb not in r) or (b.bb in Ab and False)
+        if b.bb in Ab:
+            ok = False
+        k = key or ("dom:%s" % what)
+        if ok:
+            cx.ok("%s: `%s` is preceded on every feasible path by %s" % (what, b.primary, names(A)), b.where(), fn=body.id)
+        else:
+            cx.bad("%s|%s" % (k, body.id), "%s: a feasible path reaches `%s` without passing %s" % (what, b.primary, names(A)), b.where(), fn=body.id)
+            allok = False
+    return allok
